@@ -26,9 +26,9 @@ def cfgs(max_retries, *, initial=200000, mul=(1, 1), max_interval=0, jitter=("de
     return out
 
 
-def tlc_client(ctx, name, cfg_list, bodies, ends, outcomes, max_attempts, cancel_in_wait, *, timeout=1800, simulate=None, depth=None):
+def tlc_client(ctx, name, cfg_list, bodies, ends, outcomes, max_attempts, cancel_in_wait, *, timeout=1800, simulate=None, depth=None, max_connects=1):
     consts = dict(Cfgs=Raw("{" + ", ".join(core.tla_value(c) for c in cfg_list) + "}"), Bodies=tok_seqs(bodies), Ends=strs(ends),
-                  Outcomes=strs(outcomes), MaxAttempts=max_attempts, CancelInWait=cancel_in_wait)
+                  Outcomes=strs(outcomes), MaxAttempts=max_attempts, CancelInWait=cancel_in_wait, MaxConnects=max_connects)
     d = core.write_mc(ctx, name, "Client", consts,
                       invariants=["Reason", "NoRetryAfterPermanent", "RetryCount", "Capped", "HeaderRule", "BodyRule", "Export"])
     return core.run_tlc(ctx, d, name, timeout=timeout, simulate=simulate, depth=depth, seed=ctx.seed if simulate else None,
@@ -154,11 +154,15 @@ def run_C10(ctx):
     r = tlc_client(ctx, "ClientBody", cfgs([0, 2], body=("nil", "nobody", "getbody", "nogetbody", "failgetbody")),
                    [EID1, CUTID], ["clean", "error"], ["transport", "stream", "reject"], 3, False)
     drive_client(ctx, r.stdout_path, "body", "result,header,body", "whole", agg)
+    # Connect called again on the same Connection after it returned (rejected response, retries exhausted): the Connection's state persists
+    r = tlc_client(ctx, "ClientReconnect", cfgs([-1, 1], body=("nobody", "getbody", "nogetbody")), [EID1, ENOID, EID7], ["clean", "error"],
+                   ["transport", "stream", "reject"], 3 if q else 4, False, max_connects=2 if q else 3)
+    drive_client(ctx, r.stdout_path, "reconnect", "result,header,body,events", "whole", agg)
     client_evidence(ctx, agg,
                     "every history of <= %d attempts, each a transport failure or a stream from 13 bodies (events with a numeric id, an id-only event, "
                     "an empty id, an id containing NUL, no id, an event cut after its id line, a pending id line, and combinations) ending cleanly or by "
                     "a read error, replayed on a real Connection; the scripted RoundTripper records presence and value of Last-Event-ID on every request and "
-                    "reads the request body to the end; plus all five body kinds x retry limits; non-trivial = more than one step or an event" % (3 if q else 4),
+                    "reads the request body to the end; plus all five body kinds x retry limits; plus histories in which Connect is called again on the same Connection after it returned; non-trivial = more than one step or an event" % (3 if q else 4),
                     ["the request given to NewConnection carries no Last-Event-ID header of its own", "MaxRetries 0 (unbounded) is observed for the scripted attempts"],
                     exhaustive=True)
 
